@@ -177,3 +177,29 @@ M("c07_sorted_by_supply_order", "C07", "ak/ghist.py",
 M("c07_not_built_head_not_registered", "C07", "ak/ghist.py",
   "                    if my_rbuild.build_num.is_fake_not_merged():\n                        continue",
   "                    if my_rbuild.build_num.is_fake_not_merged() or my_rbuild.build_num.is_fake_not_built():\n                        continue")
+
+# ---------------------------------------------------------------- C08
+M("c08_chunk_pos_boundary", "C08", "ak/color.py",
+  "            if position < len(chunk.text):\n                return chunk_id, position",
+  "            if position <= len(chunk.text) and chunk.text:\n                return chunk_id, min(position, len(chunk.text) - 1)")
+M("c08_negative_end_clamp", "C08", "ak/color.py",
+  "        elif end_pos < 0:\n            end_pos = max(0, self.scrlen + end_pos)",
+  "        elif end_pos < 0:\n            end_pos = self.scrlen + end_pos + 1")
+M("c08_negative_start_not_clamped", "C08", "ak/color.py",
+  "            start_pos = max(0, self.scrlen + start_pos)", "            start_pos = self.scrlen + start_pos")
+M("c08_merge_compares_suffix", "C08", "ak/color.py",
+  "        return self.c_prefix == other.c_prefix\n\n    def add_chunks_same_type",
+  "        return self.c_suffix == other.c_suffix\n\n    def add_chunks_same_type")
+M("c08_radd_order", "C08", "ak/color.py",
+  "    def __radd__(self, other) -> 'CHText':\n        return CHText(other, self)",
+  "    def __radd__(self, other) -> 'CHText':\n        return CHText(self, other)")
+M("c08_format_width_counts_escapes", "C08", "ak/color.py",
+  "        filler_width = max(width - self.scrlen, 0)", "        filler_width = max(width - len(str(self)), 0)")
+M("c08_center_extra_on_left", "C08", "ak/color.py",
+  "            prefix_width = filler_width // 2\n", "            prefix_width = (filler_width + 1) // 2\n")
+M("c08_fixed_len_returns_self_shared", "C08", "ak/color.py",
+  "        if len_diff < 0:\n            return self[:desired_len]\n        if len_diff > 0:\n            return self + \" \"*len_diff",
+  "        if len_diff < 0:\n            return self[:desired_len]\n        if len_diff > 0:\n            self += \" \"*len_diff")
+M("c08_eq_ignores_colors_of_single_chunk", "C08", "ak/color.py",
+  "        if isinstance(other, str):\n            return self.is_plain() and self.text == other\n\n        return NotImplemented\n\n    def __iadd__",
+  "        if isinstance(other, str):\n            return self.text == other\n\n        return NotImplemented\n\n    def __iadd__")
